@@ -266,6 +266,29 @@ func init() {
 					}
 				}
 			}
+			// destinations with backslashes (an ordinary character here) next to "." and ".." components; globs whose
+			// literal leading directory lies above the deepest directory all matches share
+			for _, p := range pk {
+				for _, d := range []string{`/usr\..\etc/x`, `/a\..\b`, `/a/..\b/c`, `/a\/b`, `a\b\..`, `/zzz\..\current`, `\a`, `/a/\../b`} {
+					for _, t := range c05Templates(true) {
+						e := t.e
+						e.Dst = d
+						if !yield(C05Case{Part: "backslash", Packager: p, List: []model.Entry{e}}) {
+							return
+						}
+						if !yield(C05Case{Part: "backslash", Packager: p, List: []model.Entry{e, {Src: "etc/app.conf", Dst: "/etc/x"}, {Src: "etc/app.conf", Dst: "/b/c"}}}) {
+							return
+						}
+					}
+				}
+				for _, g := range []string{"etc/*/main.conf", "etc/**/main.conf", "tree/*/y", "deep/l0/**/bottom", "samename/*/only-arm64", "many/d0?/f000", "rootfs/*/share/licenses/*/COPYING"} {
+					for _, dst := range []string{"/dst", "/dst/"} {
+						if !yield(C05Case{Part: "glob-base", Packager: p, List: []model.Entry{{Src: g, Dst: dst}}}) {
+							return
+						}
+					}
+				}
+			}
 			// every spelling of the root directory as the destination of an entry that is not a directory, with an entry
 			// beneath it (both orders); packager tags that differ from a packager's name in letter case or by a blank (such
 			// an entry is addressed to nobody)
